@@ -891,6 +891,14 @@ class Manager:
                 self.fire(event.child('failure', event, err), *event.channels)
 
             self.fire(exception(*err, handler=None, fevent=event))
+
+            # The handler is finished (and so is the call/wait it may have
+            # been suspended in): the event must not stay pending forever.
+            self._currently_handling = None
+            event.waitingHandlers -= 2 if parent else 1
+            if event.waitingHandlers <= 0:
+                event.waitingHandlers = 0
+                self._eventDone(event, err)
         finally:
             self._currently_handling = None
 
